@@ -16,7 +16,7 @@
    themselves on the implementation is checked by the correspondence; its derivation from a
    denotational semantics belongs to the engine family.)
    Statements only; every proof is one [exact]. *)
-Require Import Base Rank RankLemmas RankFacts Intern InternFacts.
+Require Import Base Rank RankLemmas RankFacts Intern InternFacts InternWf.
 From Coq Require Import Arith Permutation.
 
 (* --- the interning key ----------------------------------------------------------------------- *)
@@ -104,19 +104,25 @@ Theorem order_independent : forall prog o1 o2 w1 w2,
 Proof. exact InternFacts.order_independent_unfold. Qed.
 Print Assumptions order_independent.
 
-(* ... and what finish compiles for each of them is a valid ranking of its own rank graph (so by
+(* The rank graph of any wired state is well formed (every edge joins two instances), so the
+   theorems of C01 apply to it unconditionally ... *)
+Theorem wired_rank_graph_wf : forall sharing prog order w g,
+  wire_prog sharing prog order = Ok w -> rgraph_of w = Some g -> rg_wf g.
+Proof. intros sharing prog order w g Hw. exact (InternWf.rgraph_of_wf w g (InternWf.wf_wire_prog sharing prog order w Hw)). Qed.
+Print Assumptions wired_rank_graph_wf.
+
+(* ... and what finish compiles, for each order, is a valid ranking of its own rank graph (so by
    C01 every node is evaluated after its producers, in both). *)
 Theorem compiled_order_is_ranking : forall prog order w g o es,
-  compile prog order = Built w g o es -> rg_wf g -> kahn g = KOk o /\ is_ranking g o.
-Proof. exact InternFacts.compile_ranked. Qed.
+  compile prog order = Built w g o es -> kahn g = KOk o /\ is_ranking g o.
+Proof. exact InternWf.compile_ranked'. Qed.
 Print Assumptions compiled_order_is_ranking.
 
 (* A wired program is rejected as cyclic exactly when its rank graph has a cycle. *)
-Theorem compile_rejects_exactly_cycles : forall prog order w,
-  wire_prog true prog order = Ok w ->
-  forall g, rgraph_of w = Some g -> rg_wf g ->
+Theorem compile_rejects_exactly_cycles : forall prog order w g,
+  wire_prog true prog order = Ok w -> rgraph_of w = Some g ->
   (compile prog order = Rejected E_CYCLE <-> cyclic g /\ ~ has_push_dep g).
-Proof. exact InternFacts.compile_rejects_cycle. Qed.
+Proof. exact InternWf.compile_rejects_cycle'. Qed.
 Print Assumptions compile_rejects_exactly_cycles.
 
 (* ---- non-vacuity: a concrete program, evaluated by the kernel -------------------------------- *)
